@@ -740,6 +740,130 @@ def check_delegation(ctx, fb):
     ctx.floor("pmtree-delegates", n, 10)
 
 
+def check_store_adapter(ctx, fb, rid="R06-11"):
+    """R06-11: the key-value adapter under the persistent tree is a transparent map. pmtree recomputes parents from what `get`
+    returns and persists leaves and nodes through `put` / `put_batch`; a record that is dropped, altered or written under a
+    condition makes stored leaves disagree with the root the tree reports (and with the in-memory back ends) from the next
+    read of that position on. Decided on every path: `get(k)` is sled's get of k and returns its bytes; `put(k, v)` is one
+    unconditional insert of (k, v); `put_batch(m)` inserts every pair of m into one batch - each iteration exactly one insert of
+    that iteration's pair, no other branch - and applies it; Ok only if sled reported Ok."""
+    pre = r"SledDB as (vacp2p_)?pmtree::Database>::"
+    n = 0
+    # get
+    it = fb.one(pre + r"get$")
+    ctx.touch(it)
+    eng = Engine(fb, inline=lambda i: False)
+    ok, why = True, ""
+    for p in eng.run(it):
+        cs = p.calls(r"sled::(Tree|Db|db::Db)::get$")
+        if len(cs) != 1 or cs[0][2] != (F(P(1), "0"), P(2)):
+            ok, why = False, "a path does not read sled::get(self.0, key) exactly once (calls: %s)" % [sh(("call", c[1], c[2]), 80) for c in p.calls()][:4]
+            break
+        g = ("call", cs[0][1], cs[0][2])
+        extra = [(a, v) for a, v in p.conds() if not contains(a, g)]
+        if extra:
+            ok, why = False, "the result depends on a condition other than sled's own result: %s" % sh(extra[0][0], 100)
+            break
+        if p.kind == "return":
+            rv = eng.value_of(p.store, p.ret)
+            if rv[0] == "adt" and str(rv[1]).endswith("Ok"):
+                if not contains(rv, g):
+                    ok, why = False, "Ok(%s) is not the value read from the store" % sh(rv, 100)
+                    break
+                for cl in [t for t in subterms(rv) if isinstance(t, tuple) and t and t[0] == "closure"]:
+                    cit = fb.items.get(cl[1])
+                    if cit is None:
+                        continue
+                    cps = [q for q in Engine(fb, inline=lambda i: False).run(cit) if q.kind != "unreachable"]
+                    bad = [q for q in cps if q.conds() or q.kind != "return"]
+                    other = [c[1] for q in cps for c in q.calls() if not re.search(r"to_vec$|deref$|as_ref$|to_owned$|::into$|::from$|clone$", c[1])]
+                    if bad or other:
+                        ok, why = False, "the stored bytes are transformed on the way out (%s)" % (other[:2] or "conditional")
+                        break
+    ctx.check(ok, rid, "SledDB::get", "get(k) = the bytes sled stores under k", why, loc(it))
+    n += 1
+    # put
+    it = fb.one(pre + r"put$")
+    ctx.touch(it)
+    ok, why = True, ""
+    for p in eng.run(it):
+        cs = p.calls(r"sled::(Tree|Db|db::Db)::insert$")
+        if len(cs) != 1 or cs[0][2] != (F(P(1), "0"), P(2), P(3)):
+            ok, why = False, "a path does not make exactly one sled::insert(self.0, key, value) (found %s)" % [sh(("call", c[1], c[2]), 80) for c in cs]
+            break
+        g = ("call", cs[0][1], cs[0][2])
+        extra = [(a, v) for a, v in p.conds() if not contains(a, g)]
+        if extra:
+            ok, why = False, "the write is subject to a condition: %s" % sh(extra[0][0], 100)
+            break
+        if p.kind == "return":
+            rv = eng.value_of(p.store, p.ret)
+            okc = [v for a, v in p.conds() if a == ("ok", g) or contains(a, g)]
+            if rv[0] == "adt" and str(rv[1]).endswith("Ok") and okc and okc[0] is False:
+                ok, why = False, "Ok is returned although sled's insert failed"
+                break
+    ctx.check(ok, rid, "SledDB::put", "put(k, v) = one unconditional sled insert of (k, v); Ok only if sled reported Ok", why, loc(it))
+    n += 1
+    # put_batch
+    it = fb.one(pre + r"put_batch$")
+    ctx.touch(it)
+    ok, why = True, ""
+    paths = eng.run(it)
+    body = [p for p in paths if p.kind == "backedge"]
+    rets = [p for p in paths if p.kind == "return"]
+    closures = []
+    if not body:
+        # iterator form: subtree.into_iter().for_each(|(k, v)| batch.insert(k, v))
+        for p in rets:
+            for c in p.calls(r"Iterator>?::for_each$"):
+                for t in subterms(("t",) + tuple(c[2])):
+                    if isinstance(t, tuple) and t and t[0] == "closure" and t[1] in fb.items:
+                        closures.append(fb.items[t[1]])
+        for cit in closures:
+            body += [q for q in Engine(fb, inline=lambda i: False).run(cit) if q.kind == "return"]
+    if not body:
+        ok, why = False, "shape not recognised: no loop (or for_each closure) that fills the batch"
+    for p in body:
+        ins = p.calls(r"sled::Batch::insert$")
+        cs = p.conds()
+        nexts = [a for a, v in cs if isinstance(a, tuple) and a[0] == "ok" and a[1][0] == "call" and a[1][1].endswith("::next")]
+        extra = [(a, v) for a, v in cs if a not in nexts]
+        if len(ins) != 1:
+            ok, why = False, "an iteration makes %d inserts into the batch (specification: every pair of the map is inserted once)%s" % (
+                len(ins), ("; it is skipped under " + sh(extra[0][0], 100)) if extra else "")
+            break
+        if extra:
+            ok, why = False, "whether / what an iteration inserts depends on %s" % sh(extra[0][0], 100)
+            break
+        k, v = ins[0][2][1], ins[0][2][2]
+        src = None
+        if nexts:
+            src = ("unwrap", nexts[0][1])
+        def is_part(t, idx):
+            # the iteration's pair: unwrap(next(iter)).idx, or the closure's tuple parameter .idx
+            if src is not None:
+                return t == ("field", src, ("f", str(idx))) or t == F(src, str(idx))
+            return isinstance(t, tuple) and t[0] == "field" and t[2] == ("f", str(idx)) and t[1][0] == "param"
+        if not (is_part(k, 0) and is_part(v, 1)):
+            ok, why = False, "the batch receives (%s, %s), specification the iteration's own (key, value)" % (sh(k, 60), sh(v, 60))
+            break
+    if ok:
+        for p in rets:
+            ap = p.calls(r"sled::(Tree|Db|db::Db)::apply_batch$")
+            rv = eng.value_of(p.store, p.ret)
+            if len(ap) != 1 or ap[0][2][0] != F(P(1), "0"):
+                ok, why = False, "a return path does not apply the batch to self.0 exactly once"
+                break
+            g = ("call", ap[0][1], ap[0][2])
+            okc = [v for a, v in p.conds() if contains(a, g)]
+            if rv[0] == "adt" and str(rv[1]).endswith("Ok") and (not okc or okc[-1] is not True):
+                ok, why = False, "Ok is returned without sled's apply_batch having succeeded"
+                break
+    ctx.check(ok, rid, "SledDB::put_batch", "put_batch(m) inserts every (k, v) of m, unconditionally, into one batch and applies it", why, loc(it))
+    n += 1
+    ctx.floor("store-adapter-ops", n, 3)
+
+
 def check_subtree_root(ctx, fb):
     """R06-5: get_subtree_root(n, index) = root of the level-n subtree that contains leaf `index`: node (n, index >> (depth - n))"""
     for name in ("pmtree", "optimal", "full"):
@@ -940,6 +1064,7 @@ def run(ctx):
     okr, whyr = c15.removal_span_rule(fb, it)
     ctx.check(okr, "R06-10", "pmtree::remove_indices removal set", "values[i - first] = default leaf if i is listed else tree.get(i), for i in first..=last; written at first", whyr, loc(it))
     check_delegation(ctx, fb)
+    check_store_adapter(ctx, fb)
     check_subtree_root(ctx, fb)
     check_plain_observers(ctx, fb)
     check_writers(ctx, fb)
